@@ -129,14 +129,6 @@ message is queued on the mux. -/
 def C17_delivery_full : Prop :=
   ∀ (rs : List Route), (∀ r ∈ rs, r.Wf) → ∀ tx : Mux.Tx, ∃ tx', sendRoutes tx rs = .ok tx'
 
-theorem routePkt_replicate (n : Nat) (r : Route) :
-    (routePkt (List.replicate n r)).length = n * (fmtRoute r).length := by
-  induction n with
-  | zero => simp [routePkt]
-  | succ n ih =>
-    simp only [routePkt, List.replicate_succ, List.map_cons, List.flatten_cons, List.length_append] at ih ⊢
-    rw [ih, Nat.succ_mul]; omega
-
 /-- **The full statement is false of the code** (known finding `C17:delivery:routes-message-exceeds-one-frame`,
 F16): 5462 routes of the shortest form `1.0.0.0/8` make a message of 65544 bytes, and
 `assert len(data) <= 65535` in `Mux.send` raises — the server process ends. -/
@@ -163,11 +155,6 @@ theorem C17_delivery_iff (tx : Mux.Tx) (rs : List Route) (hwf : ∀ r ∈ rs, r.
     · rw [sendRoutes_big tx rs hwf (by omega)] at h; cases h
   · intro hl
     exact ⟨_, sendRoutes_fits tx rs hwf hl⟩
-
-/-- The plan `FirewallClient.start` writes when the client received the routes `rs`. -/
-def planWith (c : Client) (rs : List Route) (tail : List Bytes) : List Bytes :=
-  [Gen.C17.START_HEADER] ++ (c.incl ++ (c.fwAutoNets ++ rs.map toSubnet)).map (subnetText 0) ++
-    c.excl.map (subnetText 1) ++ tail
 
 /-- **Delivery, the part that holds** (missing from the full statement: the size bound, which is
 hypothesis `hlen`; it holds e.g. for every table of at most 3120 routes, each costing ≤ 21 bytes).
@@ -208,6 +195,23 @@ theorem C17_delivery_partial (rs : List Route) (hwf : ∀ r ∈ rs, r.Wf) (hlen 
   simp only [hgr, Bool.not_true, Bool.false_eq_true, ↓reduceIte, hopt, hnets, bind, Except.bind,
     fwStart_ascii _ _ _ tail hall, pure, Except.pure, planWith]
 
+/-- The two halves joined: for **every** tool output (any lines, junk included) `list_routes` returns a
+list of routes, and whenever their message fits one frame it is queued and the waiting client turns it into
+the plan `planWith` and starts the firewall. -/
+theorem C17_table_delivered (tool : Tool) (lines : List Bytes) (tx : Mux.Tx) (c : Client) (tail : List Bytes)
+    (hgr : c.gotRoutes = true) (hopt : c.autoNetsOpt = true) (hv4 : c.listeners.v4 = true)
+    (hasc : ∀ s ∈ c.incl ++ c.fwAutoNets ++ c.excl, s.Ascii) :
+    ∃ rs, listRoutes tool lines = .ok rs ∧
+      ((routePkt rs).length ≤ 65535 →
+        (∃ tx', sendRoutes tx rs = .ok tx') ∧
+        c.gotRoutesPacket (routePkt rs) tail =
+          .ok { c with gotRoutes := false, fwAutoNets := c.fwAutoNets ++ rs.map toSubnet,
+                       dialogues := c.dialogues ++ [planWith c rs tail] }) := by
+  obtain ⟨rs, hrs, hwf⟩ := C17_list_routes_total tool lines
+  refine ⟨rs, hrs, fun hlen => ?_⟩
+  obtain ⟨h1, _, h3⟩ := C17_delivery_partial rs hwf hlen tx c tail hgr hopt hv4 hasc
+  exact ⟨⟨_, h1⟩, h3⟩
+
 /-- Non-vacuity: a two-route table through a client with one configured include. -/
 example :
     let rs : List Route := [⟨2, inetNtoa 0xc0a80100, 24⟩, ⟨2, inetNtoa 0x0a000000, 8⟩]
@@ -224,63 +228,6 @@ example :
   · intro s hs
     simp only [List.append_nil, List.mem_cons, List.not_mem_nil, or_false] at hs
     subst hs; unfold Subnet.Ascii; decide
-
-theorem mapExc_mem {α β : Type} (f : α → Except Exc β) : ∀ (l : List α) (bs : List β),
-    mapExc f l = .ok bs → ∀ a ∈ l, ∃ b ∈ bs, f a = .ok b := by
-  intro l
-  induction l with
-  | nil => intro bs _ a ha; simp at ha
-  | cons x xs ih =>
-    intro bs h a ha
-    simp only [mapExc, bind, Except.bind] at h
-    cases hx : f x with
-    | error e => rw [hx] at h; cases h
-    | ok b =>
-      rw [hx] at h
-      simp only at h
-      cases hxs : mapExc f xs with
-      | error e => rw [hxs] at h; cases h
-      | ok bs' =>
-        rw [hxs] at h
-        simp only [pure, Except.pure, Except.ok.injEq] at h
-        subst h
-        simp only [List.mem_cons] at ha
-        rcases ha with rfl | ha
-        · exact ⟨b, by simp, hx⟩
-        · obtain ⟨b', hb', hf⟩ := ih bs' hxs a ha
-          exact ⟨b', by simp [hb'], hf⟩
-
-/-- What a successful `got_packet(ROUTES)` did, step by step. -/
-theorem gotRoutesPacket_ok {c c' : Client} {data : Bytes} {tail : List Bytes}
-    (h : c.gotRoutesPacket data tail = .ok c') :
-    ∃ nets d, c.gotRoutes = true ∧
-      (if c.autoNetsOpt = true then onroutesLoop c.listeners (splitOn 10 (stripWith isBSpace data)) c.fwAutoNets
-       else .ok c.fwAutoNets) = .ok nets ∧
-      fwStart c.incl nets c.excl tail = .ok d ∧
-      c' = { c with gotRoutes := false, fwAutoNets := nets, dialogues := c.dialogues ++ [d] } := by
-  unfold Client.gotRoutesPacket at h
-  by_cases hg : c.gotRoutes = true
-  · by_cases ho : c.autoNetsOpt = true
-    · simp only [hg, ho, Bool.not_true, Bool.false_eq_true, ↓reduceIte, bind, Except.bind] at h
-      cases hn : onroutesLoop c.listeners (splitOn 10 (stripWith isBSpace data)) c.fwAutoNets with
-      | error e => rw [hn] at h; cases h
-      | ok nets =>
-        rw [hn] at h
-        simp only at h
-        cases hd : fwStart c.incl nets c.excl tail with
-        | error e => rw [hd] at h; cases h
-        | ok d =>
-          rw [hd] at h
-          simp only [pure, Except.pure, Except.ok.injEq] at h
-          exact ⟨nets, d, hg, by simp [ho], hd, by rw [← h]; simp [ho]⟩
-    · simp only [hg, ho, Bool.not_true, Bool.false_eq_true, ↓reduceIte, bind, Except.bind, pure, Except.pure] at h
-      cases hd : fwStart c.incl c.fwAutoNets c.excl tail with
-      | error e => rw [hd] at h; cases h
-      | ok d =>
-        rw [hd] at h
-        simp only [Except.ok.injEq] at h
-        exact ⟨c.fwAutoNets, d, hg, by simp [ho], hd, by rw [← h]; simp [ho]⟩
-  · simp [hg] at h
 
 /-- **Client side, for every message whatsoever** that `onroutes` accepts: the handler was installed
 and is cleared; the firewall is started exactly once (one dialogue is appended, and any further
